@@ -1827,6 +1827,19 @@ def _fold_isinstance(model, v, t):
         sub = {'Angle': {'Angle', 'Quantity'}, 'Quantity': {'Quantity'}, 'SkyCoord': {'SkyCoord'}}.get(made)
         if sub is not None and all(k == 'ext' for k, c in names):
             return any(c in sub for k, c in names)
+    if all(k == 'ext' for k, c in names):
+        # values whose Python type the term itself fixes
+        ty = None
+        if isinstance(v, App) and v.name in ('fstring', 'fmt', 'str.format', 'str') or (
+                isinstance(v, Const) and isinstance(v.v, str)):
+            ty = {'str'}
+        elif isinstance(v, Tup) and v.kind in ('list', 'tuple'):
+            ty = {v.kind}
+        elif isinstance(v, Const) and isinstance(v.v, bool):
+            ty = {'bool', 'int'}
+        if ty is not None and all(c in ('str', 'list', 'tuple', 'dict', 'bool', 'int', 'float', 'set', 'bytes')
+                                  for k, c in names):
+            return any(c in ty for k, c in names)
     if isinstance(v, sp.Symbol) and v in PLAIN_QUANTITY and all(k == 'ext' for k, c in names):
         return any(c == 'Quantity' for k, c in names)
     if isinstance(v, Obj) and getattr(v, 'typed', True) is False:
